@@ -201,5 +201,21 @@ def run(R, tier):
                         elif unit_name == "scpi":
                             R.check(mask == 0x20, "R14.5", key, "syntax/header/type fault -> command error class", "%s (code %s) raised by the parser is not in the command-error class" % (var, code), where=st.get("line"))
     R.floor("R14.5", "ErrorCode construction sites", n_sites, 100)
+    # value faults reported by the number parser (too large / too small for the target) are execution errors
+    from . import convert as CV
+    n_conv = 0
+    for ty, b in CV.conversions(u):
+        if ty not in CV.INTS and ty not in CV.FLOATS:
+            continue
+        n_conv += 1
+        emap = CV.error_map("dflt", "scpi", b)
+        for vn in ("Overflow", "Underflow"):
+            codes = set()
+            for oc in emap.get(vn, ()):  # outcome strings "Err(Name)"
+                nm = oc[4:-1] if oc.startswith("Err(") else oc
+                codes.add(nm)
+            masks = {expected_mask(o, code_of[c]) if c in code_of and code_of[c] is not None else None for c in codes}
+            R.check(masks == {0x10}, "R14.5", "numeric-%s:%s" % (vn.lower(), ty), "parser %s -> %s (execution error class)" % (vn, sorted(codes)), "a literal that is out of range for %s (%s) is reported as %s, which is not in the execution-error class" % (ty, vn, sorted(codes)), where=b.span)
+    R.floor("R14.5", "numeric conversions", n_conv, 12)
     R.trust("SCPI-99 error list as transcribed in oracle/errors.json")
     R.assume("user handlers may return any Error; only errors constructed by the library are classified (R14.5)")
